@@ -36,6 +36,7 @@ typedef float scal_t;
 #define MATVEC smatvec
 #define CR2CC sCompRow_to_CompCol
 #define COPYCC sCopy_CompCol_Matrix
+#define COPYDN sCopy_Dense_Matrix
 #define CREATE_CC sCreate_CompCol_Matrix
 #define CREATE_NCP sCreate_CompCol_Permuted
 #define CREATE_SCP sCreate_SuperNode_Permuted
@@ -56,6 +57,7 @@ typedef complex scal_t;
 #define MATVEC cmatvec
 #define CR2CC cCompRow_to_CompCol
 #define COPYCC cCopy_CompCol_Matrix
+#define COPYDN cCopy_Dense_Matrix
 #define CREATE_CC cCreate_CompCol_Matrix
 #define CREATE_NCP cCreate_CompCol_Permuted
 #define CREATE_SCP cCreate_SuperNode_Permuted
@@ -76,6 +78,7 @@ typedef doublecomplex scal_t;
 #define MATVEC zmatvec
 #define CR2CC zCompRow_to_CompCol
 #define COPYCC zCopy_CompCol_Matrix
+#define COPYDN zCopy_Dense_Matrix
 #define CREATE_CC zCreate_CompCol_Matrix
 #define CREATE_NCP zCreate_CompCol_Permuted
 #define CREATE_SCP zCreate_SuperNode_Permuted
@@ -96,6 +99,7 @@ typedef double scal_t;
 #define MATVEC dmatvec
 #define CR2CC dCompRow_to_CompCol
 #define COPYCC dCopy_CompCol_Matrix
+#define COPYDN dCopy_Dense_Matrix
 #define CREATE_CC dCreate_CompCol_Matrix
 #define CREATE_NCP dCreate_CompCol_Permuted
 #define CREATE_SCP dCreate_SuperNode_Permuted
@@ -242,6 +246,9 @@ static void do_copy(void) { COPYCC(&g_A, &g_Bm); SH->ival[0] = g_Bm.nrow; SH->iv
                             SH->ival[2] = ((NCformat *) g_Bm.Store)->nnz; SH->ival[3] = g_Bm.Stype;
                             SH->ival[4] = g_Bm.Dtype; SH->ival[5] = g_Bm.Mtype; }
 
+static long g_dm, g_dn, g_dldx, g_dldy;
+static void do_dncopy(void) { COPYDN(g_dm, g_dn, g_x, g_dldx, g_y, g_dldy); }
+
 int main(void)
 {
     char cmd[64], id[64];
@@ -315,6 +322,14 @@ int main(void)
             printf(" %ld %ld %ld %ld %ld %ld", (long) SH->ival[0], (long) SH->ival[1], (long) SH->ival[2],
                    (long) SH->ival[3], (long) SH->ival[4], (long) SH->ival[5]);
             pr_vec(bv, lbv); pr_ivec(bri, lbv); pr_ivec(bcp, lbc); printf("\n");
+        } else if (!strcmp(cmd, "dncopy")) {
+            /* dncopy id M N ldx ldy lenX X.. lenY Y..  (Y pre-filled)  ->  R id st lenY Y.. */
+            int st; long lx, ly;
+            g_dm = rd_long(); g_dn = rd_long(); g_dldx = rd_long(); g_dldy = rd_long();
+            lx = rd_long(); g_x = rd_vec(lx, 0);
+            ly = rd_long(); g_y = rd_vec(ly, 1);
+            st = forked(do_dncopy);
+            pr_status(id, st); pr_vec(g_y, ly); printf("\n");
         } else if (!strcmp(cmd, "factor")) {
             /* factor id nprocs permc panel relax maxsuper n nnz colptr[n+1] rowind[nnz] val[nnz]
                -> R id ok info n nsuper | Lval | nzbeg nzend | rowind | ribeg riend | col2sup supbeg supend |
